@@ -217,6 +217,15 @@ def run(fx, rep, tier):
         if o["rule"] in ("C04-R1", "C04-R5"):
             o["rule"] = "C09-R5"
             rep.obls.append(o)
+    # "exactly for every magnitude": the magnitude is whatever the literal denotes - sign, fraction digits and exponent
+    rep.rule("C09-R6", "the magnitude converted is the magnitude written: the literal reader computes (-)N / 10^d * 10^(+-E) "
+                       "(inductive transducer check of Rational::from_str, shared with C07-R4)")
+    from . import c07
+    s6 = type(rep)(rep.prop, rep.tier)
+    c07.r4_reader(facts, s6, "quick")
+    for o in s6.obls:
+        o["rule"] = "C09-R6"
+        rep.obls.append(o)
     if "rel" in fx:
         sub = type(rep)(rep.prop, rep.tier)
         r2_apply(fx["rel"], sub)
